@@ -15,7 +15,8 @@ from spec import step as S
 
 NUM = lambda r: r.uniform(-50, 50)  # noqa
 LETTERS = list("MmLlHhVvCcSsQqTtAaZz")
-PREFIXES = ["empty", "M", "ML", "MQ", "MC", "MA", "MLZ", "MLM", "L", "MLZL", "MQZ"]
+PREFIXES = ["empty", "M", "ML", "MQ", "MC", "MA", "MLZ", "MLM", "L", "MLZL", "MQZ", "MLZQ", "MLZC", "MLZA", "LQ", "LC", "LA",
+            "LZ", "MLLL"]
 BUILDER = ["SVGLexicalParser.parse", "SVGLexicalParser._command", "SVGLexicalParser._more",
            "SVGLexicalParser._number", "SVGLexicalParser._flag", "SVGLexicalParser._coord",
            "SVGLexicalParser._rcoord", "Path.parse", "Path.move", "Path.line", "Path.horizontal", "Path.vertical",
@@ -27,6 +28,7 @@ BUILDER = ["SVGLexicalParser.parse", "SVGLexicalParser._command", "SVGLexicalPar
 
 def mk_prefix(E, shape):
     """a path in the state left by a grammar-conforming prefix of this shape; returns (path, state, views)"""
+    E.prefix_independence()
     p = E.construct("Path")
     segs = E.get(p, "_segments")
     state = dict(cur=None, start=None, last=(None, None))
@@ -143,10 +145,10 @@ def needs_cur(letter):
 CASES = [(pf, l) for pf in PREFIXES for l in LETTERS]
 
 
-@family("C01/step", CASES, funcs=BUILDER, props=["C01", "C17"], kind="S", timeout_ms=30000,
-        note="stored prefix = a representative of each interpreter state (previous segment kind x subpath "
-             "structure); the unbounded prefix before it does not influence the step except through z_point's "
-             "reverse scan, whose generic-element induction is C01/z_point/scan")
+@family("C01/step", CASES, funcs=BUILDER, props=["C01", "C17"], kind="P", timeout_ms=30000,
+        note="stored prefix = one representative per interpreter state: (last two stored segments) x (what the reverse "
+             "scan for the subpath start finds first: a Move, a Close, nothing); by the prefix-independence audit "
+             "(pyvc/loops.py, re-checked on the AST every run) a step reads nothing else of the stored list")
 def _(E, case):
     pf, letter = case
     p, state, kinds = mk_prefix(E, pf)
@@ -197,7 +199,7 @@ ZCASES = [(pf, l, z) for pf in ("ML", "MQ", "MC", "MLZL", "MLM") for l in "LlTtQ
           for z in range(S.ARITY[l.upper()] // 2 if l.upper() != "A" else 1)]
 
 
-@family("C01/segment_completing_z", ZCASES, funcs=BUILDER, props=["C01"], kind="S", timeout_ms=30000)
+@family("C01/segment_completing_z", ZCASES, funcs=BUILDER, props=["C01"], kind="P", timeout_ms=30000)
 def _(E, case):
     pf, letter, z_at = case
     p, state, kinds = mk_prefix(E, pf)
@@ -217,7 +219,7 @@ def _(E, case):
              And(seg_matches(E, new[0], seg[:5]), seg_matches(E, new[1], close[:5])))
 
 
-@family("C01/move_with_extra_pairs", ["M", "m"], funcs=BUILDER, props=["C01"], kind="S")
+@family("C01/move_with_extra_pairs", ["M", "m"], funcs=BUILDER, props=["C01"], kind="P")
 def _(E, letter):
     pf = E.choice("prefix", ["empty", "ML", "MLZ"])
     p, state, kinds = mk_prefix(E, pf)
@@ -251,7 +253,7 @@ def c09_cases():
     return out
 
 
-@family("C09/window", c09_cases(), funcs=BUILDER, props=["C09"], kind="S", timeout_ms=30000)
+@family("C09/window", c09_cases(), funcs=BUILDER, props=["C09"], kind="P", timeout_ms=30000)
 def _(E, case):
     letter, what = case
     pf = E.choice("prefix", ["empty", "M", "MQ", "MLZ"])
@@ -328,7 +330,7 @@ def _(E, case):
 # --------------------------------------------------------------------------------------------------
 @family("C17/append_text", ["__iadd__", "__add__"],
         funcs=["Path.__iadd__", "Path.__add__", "Path.append", "Path.extend", "Path.parse", "Path.__copy__",
-               "Path.__init__"], props=["C17"], kind="S")
+               "Path.__init__"], props=["C17"], kind="P")
 def _(E, how):
     pf = E.choice("prefix", ["MQ", "MLZ", "MC"])
     tail = E.choice("tail", ["t", "l", "s", "z"])
@@ -350,7 +352,7 @@ def _(E, how):
         E.ensure("in_place", E.same(r, p))
 
 
-@ob("C17/segment_plus_text", funcs=["PathSegment.__iadd__", "Path.__init__", "Path.__add__"], props=["C17"], kind="S")
+@ob("C17/segment_plus_text", funcs=["PathSegment.__iadd__", "Path.__init__", "Path.__add__"], props=["C17"], kind="P")
 def _(E):
     x, y, dx, dy = E.reals("x y dx dy", NUM)
     m = E.new("Move", start=None, end=E.new("Point", x=x, y=y), relative=False, smooth=True)
@@ -360,3 +362,50 @@ def _(E):
             ("Close", (x + dx, y + dy), None, None, (x, y))]
     E.ensure("move_plus_text_is_the_path_of_both", And(len(got) == 3, *[seg_matches(E, g, w) for g, w in zip(got, want)]))
 
+
+
+@family("C17/concatenation", ["path", "line_shape", "rect_shape"],
+        funcs=["Path.__iadd__", "Path.__add__", "Path.extend", "Path._validate_connection", "Path._validate_subpath",
+               "Shape.d", "Path.d", "Path.svg_d", "Point.__str__", "SimpleLine.segments", "Rect.segments"],
+        props=["C17"], kind="P", timeout_ms=30000)
+def _(E, what):
+    """a path plus another path / a shape (beginning with a move) draws both geometries unchanged; a shape is taken
+    with its transform applied (that is what shape.d() denotes)"""
+    left, state, kinds = mk_prefix(E, "ML")
+    n0 = E.len(E.get(left, "_segments"))
+    before = [view(E, s) for s in E.items(E.get(left, "_segments"))]
+    T = mk_matrix(E, "T", lambda r: r.uniform(-2, 2))
+    m0 = tuple(mat_fields(T))
+    if what == "path":
+        right, _st, _k = mk_prefix(E, "MQ")
+        want = [view(E, s) for s in E.items(E.get(right, "_segments"))]
+    elif what == "line_shape":
+        x1, y1, x2, y2 = E.reals("x1 y1 x2 y2", NUM)
+        right = E.construct("SimpleLine", x1, y1, x2, y2)
+        E.set(right, "transform", T)
+        a, b = apply(m0, (x1, y1)), apply(m0, (x2, y2))
+        want = [("Move", None, None, None, a), ("Line", a, None, None, b)]
+    else:
+        x, y = E.reals("x y", NUM)
+        w, h = E.reals("w h", lambda r: r.uniform(1, 30))
+        E.assume(And(w > 0, h > 0))
+        right = E.construct("Rect", x, y, w, h)
+        E.set(right, "transform", T)
+        c = [apply(m0, q) for q in ((x, y), (x + w, y), (x + w, y + h), (x, y + h))]
+        want = [("Move", None, None, None, c[0]), ("Line", c[0], None, None, c[1]), ("Line", c[1], None, None, c[2]),
+                ("Line", c[2], None, None, c[3]), ("Close", c[3], None, None, c[0])]
+    r = E.call(left, "__add__", right)
+    got = [view(E, s) for s in E.items(E.get(r, "_segments"))]
+    E.ensure("left_geometry_then_right_geometry", len(got) == n0 + len(want))
+    if len(got) != n0 + len(want):
+        return
+    E.ensure("left_part_unchanged", And(*[seg_matches(E, g, b) for g, b in zip(got[:n0], before)]))
+    conds = []
+    for g, wv in zip(got[n0:], want):
+        conds.append(g[0] == wv[0])
+        conds.append(same_pt(g[4], wv[4]))
+        if wv[0] != "Move":
+            conds.append(same_pt(g[1], wv[1]))
+            conds.append(same_pt(g[2], wv[2]))
+    E.ensure("right_geometry_unchanged_(shape_taken_with_its_transform)", And(*conds))
+    E.ensure("operand_unchanged", And(*[seg_matches(E, view(E, s), b) for s, b in zip(E.items(E.get(left, "_segments")), before)]))
